@@ -72,10 +72,10 @@ def run(chk):
                 continue
             seen.add(f.key)
             chk.analysed(f)
-            session(chk, f, kind, begin, end)
-    r3_index_refresh(chk)
-    r4_lock_identity(chk, base)
-    r5_writes_under_lock(chk, base, classes)
+            chk.call(session, chk, f, kind, begin, end)
+    chk.call(r3_index_refresh, chk)
+    chk.call(r4_lock_identity, chk, base)
+    chk.call(r5_writes_under_lock, chk, base, classes)
 
 
 def session(chk, f, kind, begin, end):
